@@ -130,6 +130,10 @@ class CallMixin(object):
             # contract keyed by the *static* class the call names (e.g. USINT.produce)
             callee = self.spec.callees.get('%s.%s' % (impl[1].name, fdef.name))
         if callee is not None:
+            if not hasattr(callee, 'params'):
+                self.called.add('custom:' + qual)
+                yield from callee(self, recv, args, kw, st, n)       # sidecar model of an assumed contract
+                return
             yield from self.apply_contract(callee, recv, args, kw, st, n, qual)
             return
         if qual in self.spec.inline or short in self.spec.inline or '%s.%s' % (getattr(impl[1], 'name', ''), short) in self.spec.inline:
